@@ -214,6 +214,7 @@ def _run_faults(case, net, ref, steps, res):
     h0 = ops.History(net)
     for s in steps:
         before = len(h0.sd)
+        s = _resolve(h0, s)
         out = h0.apply(s)
         if out.kind != "ok":
             res.violate(f"unexpected-RuntimeError:{s['op']}", error=str(out.exc))
@@ -274,6 +275,7 @@ def _run_limits(case, net, ref, steps, res, plain_only):
     h0 = ops.History(net)
     for s in steps:
         before = len(h0.sd)
+        s = _resolve(h0, s)
         out = h0.apply(s)
         if out.kind != "ok":
             res.violate(f"unexpected-RuntimeError:{s['op']}", error=str(out.exc))
